@@ -83,4 +83,55 @@ def run(tier):
     rep.ob("C04.kind|all", not seen, "every successful path of the encoder corresponds to an ISA form (operand kinds)" if not seen else
            "%d operand-kind combinations without an ISA form" % len(seen), nontrivial=False)
     rep.floor("row x operand-kind groups compared", len(A["groups"]), 250)
+    spellings(P, rep)
     return rep
+
+
+def spellings(P, rep):
+    """What may be written for a register is exactly r0..r31 (X, Y, Z for a pointer), in either letter case: the finite language of the
+    grammar's register rules, filtered by their `{? }` conditions, must be that set — a spelling beyond it (a pair notation, a suffix)
+    would be turned into *some* register and assembled, although the ISA has no encoding for what was written."""
+    import grammar
+    import peg
+    import rules_C01_extra as X
+    g, problems = grammar.load_checked(P)
+    for pr in problems:
+        rep.unprovable("C04.spelling|grammar-cross-check", pr)
+    pairs = {"Reg8": X.from_str_pairs(P, "instruction::register::Reg8"), "Reg16": X.from_str_pairs(P, "instruction::register::Reg16")}
+
+    def cond(rule, action, caps):
+        import re
+        m = re.search(r"(\w+)::from_str\(\s*(\w+)", action["text"])
+        if m and m.group(1) in pairs and pairs[m.group(1)] and m.group(2) in caps:
+            txt = caps[m.group(2)]
+            if "to_lowercase" in action["text"]:
+                txt = txt.lower()
+            return txt in pairs[m.group(1)]
+        return None
+
+    want = {"reg8": {"%s%d" % (c, i) for c in "rR" for i in range(32)}, "reg16": set("xyzXYZ")}
+    for rule, canon in want.items():
+        r = g.rules.get(rule)
+        if r is None:
+            rep.unprovable("C04.spelling|%s" % rule, "grammar rule %s not found" % rule)
+            continue
+        lang = g.lang(r["expr"], limit=200000)
+        if lang is None:
+            rep.ob("C04.spelling|%s" % rule, False, "the spellings %s() accepts are not a finite set that can be listed: more than a register name can be written in a register position" % rule)
+            continue
+        acc = set()
+        unknown = False
+        for s_ in lang:
+            tr = peg.full_match(g, rule, s_, cond)
+            if tr is not None:
+                if tr.unknown_conditions:
+                    unknown = True
+                acc.add(s_)
+        extra = sorted(acc - canon)
+        missing = sorted(canon - acc)
+        ok = not extra and not missing and not unknown
+        rep.ob("C04.spelling|%s" % rule, ok,
+               "%s() accepts exactly %d spellings (%s)" % (rule, len(canon), "r0..r31 in both cases" if rule == "reg8" else "x, y, z in both cases") if ok else
+               ("%s() also accepts %s … (%d spellings beyond the register names): they are assembled as some register although nothing in the ISA encodes what was written" % (rule, extra[:4], len(extra)) if extra else
+                "%s() does not accept %s" % (rule, missing[:4]) if missing else "a condition in %s() could not be evaluated" % rule),
+               detail={"extra": extra[:20], "missing": missing[:20]})
